@@ -1,3 +1,13 @@
 -- Root of the FastQr library: model, spec, proofs and property theorems.
+import FastQr.Props.C01
+import FastQr.Props.C02
+import FastQr.Props.C03
+import FastQr.Props.C04
 import FastQr.Props.C05
+import FastQr.Props.C06
+import FastQr.Props.C07
+import FastQr.Props.C08
 import FastQr.Props.C09
+import FastQr.Props.C10
+import FastQr.Props.C11
+import FastQr.Props.C15
